@@ -11,7 +11,8 @@ Oracle: the simulator's own well-formedness reference (own Fletcher-8):
   B  not well_formed(x), x = faults(valid) => UBXParseError raised  (no other type, no return)
   C  VALNONE: only the two checksum bytes altered => same attributes as the intact frame
 Quick tier: EVERY single fault on a basket of frames (each position x each of 255 values,
-every insertion point, every deletion, every truncation, resealed twins).
+every insertion point, every deletion, every truncation, resealed twins), and EVERY value of the 16-bit checksum field on a ladder of
+frames whose checksummed length sits on block-size boundaries (255/256/257/512/1024 bytes).
 """
 
 from checks import common
@@ -38,7 +39,7 @@ ASSUMPTIONS = common.BASE_ASSUMPTIONS + [
 REAL_VS_STUB = common.REAL_VS_STUB
 QUICK_RUNS = 6000
 EXPECTED_PROBES = {
-    t: ["fault_sub", "fault_ins", "fault_del", "fault_trunc", "fault_reseal", "accepted_well_formed_after_fault", "zero_length_frame_insertions", "rejected_UBXParseError", "valnone_cases", "stream_cases", "stale_length_valid_checksum"]
+    t: ["fault_sub", "fault_ins", "fault_del", "fault_trunc", "fault_reseal", "accepted_well_formed_after_fault", "zero_length_frame_insertions", "rejected_UBXParseError", "valnone_cases", "stream_cases", "stale_length_valid_checksum", "checksum_field_values"]
     for t in ("quick", "thorough")
 }
 
@@ -55,6 +56,18 @@ BASKET = [
     ("unknown class (len 3)", W.ubx_frame(0x66, 0x77, b"abc")),
 ]
 MSGMODES = (0, 1, 2, 3)
+
+# length ladder: frames whose class..payload length sits on and around block-size boundaries
+# (256, 512, 1024 bytes); for these EVERY value of the 16-bit checksum field is tried.
+LADDER = [
+    ("ACK-ACK (content 6)", W.ubx_frame(0x05, 0x01, b"\x06\x01")),
+    ("content 255", W.ubx_frame(0x02, 0x13, bytes((i * 13 + 1) & 0xFF for i in range(251)))),
+    ("content 256", W.ubx_frame(0x02, 0x13, bytes((i * 29 + 3) & 0xFF for i in range(252)))),
+    ("content 257", W.ubx_frame(0x02, 0x13, bytes((i * 31 + 5) & 0xFF for i in range(253)))),
+    ("content 512", W.ubx_frame(0x02, 0x15, bytes((i * 37 + 7) & 0xFF for i in range(508)))),
+    ("content 1024", W.ubx_frame(0x0A, 0x04, bytes((i * 41 + 9) & 0xFF for i in range(1020)))),
+]
+LADDER_N = {"quick": 5, "thorough": 6, "selftest": 1}
 
 
 def _ubx_errors():
@@ -157,7 +170,7 @@ def _check_one(res, frame_hex, faults, msgmodes, note, from_valid=True):
 
 
 def _sweep_unit(unit, res):
-    note, frame = BASKET[unit["basket"]]
+    note, frame = BASKET[unit.get("basket", 0)]
     hx = frame.hex()
     n = len(frame)
     what = unit["sweep"]
@@ -189,6 +202,24 @@ def _sweep_unit(unit, res):
         for ln in range(n):
             _check_one(res, hx, [{"k": "trunc", "len": ln}], MSGMODES, note)
             _check_one(res, hx, [{"k": "trunc", "len": ln}, {"k": "reseal"}], MSGMODES, note)
+    elif what == "ckfield":
+        note, frame = LADDER[unit["ladder"]]
+        hx = frame.hex()
+        n = len(frame)
+        for hi in range(unit["range"][0], unit["range"][1]):
+            for lo in range(256):
+                ck = bytes((hi, lo))
+                if ck == frame[-2:]:
+                    continue
+                fr = {"kind": "ubx", "hex": hx, "faults": [{"k": "burst", "pos": n - 2, "hex": ck.hex()}], "note": note}
+                x = frame[:-2] + ck
+                v = judge_datagram(x, 0, True)
+                res.evaluations += 1
+                res.counters.hit("checksum_field_values")
+                res.counters.hit("fault_burst")
+                if v is not None and len(res.violations) < 4:
+                    res.violations.append({"seed": 0, "mode": "datagram", "frames": [fr], "msgmode": 0, "from_valid": True, "clause": v[0], "detail": v[1]})
+        res.log(("ckfield", unit["ladder"], unit["range"]), True)
     elif what == "valnone":
         for a in range(256):
             for b in (frame[-1], (frame[-1] + 1) & 0xFF, 0x00, 0xFF):
@@ -295,6 +326,9 @@ def batches(tier, base_seed):
         step = 8
         for lo in range(0, n, step):
             yield [{"sweep": "sub", "basket": b, "range": [lo, lo + step]}]
+    for lad in range(LADDER_N.get(tier, 5)):
+        for hi in range(0, 256, 16):
+            yield [{"sweep": "ckfield", "ladder": lad, "range": [hi, hi + 16]}]
     yield from common.seed_batches(tier, base_seed, QUICK_RUNS)
 
 
@@ -305,3 +339,4 @@ def finish_evidence(ev, total, tier):
         "insertion point, deletion and truncation, each also resealed); the multi-fault and stream parts are sampled"
     )
     ev["coverage"]["basket"] = [n for n, _ in BASKET]
+    ev["coverage"]["checksum_field_ladder"] = [n for n, _ in LADDER[: LADDER_N.get(tier, 5)]]
